@@ -55,6 +55,15 @@ type system struct {
 }
 
 var rangeClasses = []string{"0", "1", "-1", "max", "-max", "rand", "-rand"}
+
+// provenClasses: additionally the two classes far outside the proven range. The library's own prover then produces a
+// proof whose equations all hold and whose response alone is out of range: |z| = |alpha + e*x| >= 2^(bits+eps) for every
+// challenge e != 0, since |x| >= 2^(bits+eps+1) and |alpha| <= 2^(bits+eps). Only the verifier's range check rejects it.
+var provenClasses = append(append([]string{}, rangeClasses...), "over", "-over")
+
+func outOfRange(class string) bool {
+	return class == "over" || class == "-over" || class == "bigP" || class == "bigQ"
+}
 var scalarClasses = []string{"1", "2", "q-1", "rand"}
 
 func stream(w Wit, label string) *streamReader { return newStream(w.Seed, label) }
@@ -75,6 +84,15 @@ func rangeInt(class string, bits int, w Wit, label string) *saferith.Int {
 		if class == "-max" {
 			x.Neg(x)
 		}
+	case "over", "-over":
+		b := make([]byte, bits/8)
+		_, _ = stream(w, label).Read(b)
+		x = new(big.Int).SetBytes(b)
+		x.Add(x, new(big.Int).Lsh(big.NewInt(1), uint(bits+params.Epsilon+1)))
+		if class == "-over" {
+			x.Neg(x)
+		}
+		return new(saferith.Int).SetBig(x, x.BitLen())
 	default:
 		b := make([]byte, bits/8)
 		_, _ = stream(w, label).Read(b)
@@ -164,9 +182,33 @@ var systems = []system{
 			alts:   map[string]func(h *hash.Hash, p interface{}) bool{"Aux": v(zkprm.Public{Aux: o.Ped})},
 		}
 	}},
-	{"fac", []string{"key"}, []string{"-"}, func(w Wit) *inst {
+	{"fac", []string{"key", "key", "bigP", "bigQ"}, []string{"-"}, func(w Wit) *inst {
 		k, o, ver := fix.PaillierKey(w.KA), fix.PaillierKey(w.KA+1), fix.PaillierKey(w.KB)
 		pub := zkfac.Public{N: k.Plain.N(), Aux: ver.Ped}
+		if w.X == "bigP" || w.X == "bigQ" {
+			// an unbalanced modulus of the full size: one 1700-bit and one 348-bit odd factor (the proof's algebra does
+			// not need them prime). z = alpha + e*f has about 1950 bits for the big factor f, the bound is 1793 bits.
+			odd := func(bits int, label string) *saferith.Nat {
+				b := make([]byte, bits/8+1)
+				_, _ = stream(w, label).Read(b)
+				x := new(big.Int).SetBytes(b)
+				x.Mod(x, new(big.Int).Lsh(big.NewInt(1), uint(bits)))
+				x.SetBit(x, bits-1, 1)
+				x.SetBit(x, 0, 1)
+				return new(saferith.Nat).SetBig(x, bits)
+			}
+			big1, small := odd(1700, "bigfactor"), odd(348, "smallfactor")
+			P, Q := big1, small
+			if w.X == "bigQ" {
+				P, Q = small, big1
+			}
+			n := new(saferith.Nat).Mul(P, Q, 2048)
+			pubU := zkfac.Public{N: saferith.ModulusFromNat(n), Aux: ver.Ped}
+			return &inst{
+				prove:  func(h *hash.Hash) interface{} { return zkfac.NewProof(zkfac.Private{P: P, Q: Q}, h, pubU) },
+				verify: func(h *hash.Hash, p interface{}) bool { return p.(*zkfac.Proof).Verify(pubU, h) },
+			}
+		}
 		v := func(pub zkfac.Public) func(h *hash.Hash, p interface{}) bool {
 			return func(h *hash.Hash, p interface{}) bool { return p.(*zkfac.Proof).Verify(pub, h) }
 		}
@@ -177,7 +219,7 @@ var systems = []system{
 				"Aux": v(zkfac.Public{N: k.Plain.N(), Aux: fix.PaillierKey(w.KB + 1).Ped})},
 		}
 	}},
-	{"enc", rangeClasses, []string{"-"}, func(w Wit) *inst {
+	{"enc", provenClasses, []string{"-"}, func(w Wit) *inst {
 		k, ver := fix.PaillierKey(w.KA), fix.PaillierKey(w.KB)
 		x := rangeInt(w.X, params.L, w, "x")
 		rho := unit(k.Fast, w, "rho")
@@ -195,7 +237,7 @@ var systems = []system{
 				"Aux":    v(zkenc.Public{K: K, Prover: k.Plain, Aux: fix.PaillierKey(w.KB + 1).Ped})},
 		}
 	}},
-	{"encelg", rangeClasses, scalarClasses, func(w Wit) *inst {
+	{"encelg", provenClasses, scalarClasses, func(w Wit) *inst {
 		k, ver := fix.PaillierKey(w.KA), fix.PaillierKey(w.KB)
 		x := rangeInt(w.X, params.L, w, "x")
 		a, b := scalarOf(w.Y, w, "a"), scalarOf("rand", w, "b")
@@ -225,7 +267,7 @@ var systems = []system{
 				"Aux":    alt(func(p *zkencelg.Public) { p.Aux = fix.PaillierKey(w.KB + 1).Ped })},
 		}
 	}},
-	{"affg", rangeClasses, rangeClasses, func(w Wit) *inst {
+	{"affg", provenClasses, provenClasses, func(w Wit) *inst {
 		prv, ver := fix.PaillierKey(w.KA), fix.PaillierKey(w.KB)
 		x := rangeInt(w.X, params.L, w, "x")
 		y := rangeInt(w.Y, params.LPrime, w, "y")
@@ -257,7 +299,7 @@ var systems = []system{
 				"Aux":      alt(func(p *zkaffg.Public) { p.Aux = fix.PaillierKey(w.KB + 1).Ped })},
 		}
 	}},
-	{"affp", rangeClasses, rangeClasses, func(w Wit) *inst {
+	{"affp", provenClasses, provenClasses, func(w Wit) *inst {
 		prv, ver := fix.PaillierKey(w.KA), fix.PaillierKey(w.KB)
 		x := rangeInt(w.X, params.L, w, "x")
 		y := rangeInt(w.Y, params.LPrime, w, "y")
@@ -290,7 +332,7 @@ var systems = []system{
 				"Aux":      alt(func(p *zkaffp.Public) { p.Aux = fix.PaillierKey(w.KB + 1).Ped })},
 		}
 	}},
-	{"logstar", rangeClasses, []string{"base", "gen"}, func(w Wit) *inst {
+	{"logstar", provenClasses, []string{"base", "gen"}, func(w Wit) *inst {
 		k, ver := fix.PaillierKey(w.KA), fix.PaillierKey(w.KB)
 		x := rangeInt(w.X, params.L, w, "x")
 		rho := unit(k.Fast, w, "rho")
@@ -449,7 +491,7 @@ var systems = []system{
 				"Prover": alt(func(p *zkmul.Public) { p.Prover = fix.PaillierKey(w.KA + 1).Plain })},
 		}
 	}},
-	{"mulstar", rangeClasses, []string{"-"}, func(w Wit) *inst {
+	{"mulstar", provenClasses, []string{"-"}, func(w Wit) *inst {
 		ver := fix.PaillierKey(w.KB)
 		x := rangeInt(w.X, params.L, w, "x")
 		C := otherCt(ver.Plain, w, "C")
